@@ -23,3 +23,6 @@ package mgr
 // NewGroup is total: nil and typed-nil entries are skipped, never dereferenced.
 //@ func NewGroup
 //@   ensures group [C20]: result != nil
+
+//@ type Manager
+//@   invariant context [C13]: nonnil(self.ctx)
